@@ -449,16 +449,10 @@ func ruleR01h(c *Ctx) {
 					c.ok(rule, key, mu.Pos(), "machine.Zero (the unbounded account)")
 					continue
 				}
-				if call, ok := v.(*ssa.Call); ok {
-					if g := staticCallee(call); g != nil && g.Name() == "NewMonetaryIntFromBigInt" && len(call.Call.Args) == 1 {
-						v = call.Call.Args[0]
-					}
-				}
 				okSrc := false
 				why := "its value is not the result of Store.GetBalance"
-				if ex, isEx := v.(*ssa.Extract); isEx && ex.Index == 0 {
-					if gb, isCall := ex.Tuple.(*ssa.Call); isCall && gb.Call.IsInvoke() && gb.Call.Method.Name() == "GetBalance" && len(gb.Call.Args) == 3 {
-						a2, k2 := stripConv(gb.Call.Args[1]), stripConv(gb.Call.Args[2])
+				if a2, k2, found := storeBalanceArgs(v, nil, stripConv, 0); found {
+					{
 						switch {
 						case a2 != acc:
 							why = "it is the store's balance of another account (" + descr(a2, 0) + ") than the one it is recorded under (" + descr(acc, 0) + ")"
@@ -522,4 +516,80 @@ func innerMapAccount(v ssa.Value, balF *types.Var, depth int) ssa.Value {
 		}
 	}
 	return nil
+}
+
+// storeBalanceArgs: v is (NewMonetaryIntFromBigInt of) the first result of Store.GetBalance(ctx, A, K), computed here
+// or by a helper of the package (`fetchBalance(ctx, store, address, asset)`, whose parameters are bound to the call's
+// arguments); returns A and K as values of the outermost frame.
+func storeBalanceArgs(v ssa.Value, bind map[*ssa.Parameter]ssa.Value, stripConv func(ssa.Value) ssa.Value, depth int) (acc, asset ssa.Value, ok bool) {
+	if depth > 3 {
+		return nil, nil, false
+	}
+	resolve := func(x ssa.Value) ssa.Value {
+		x = stripConv(x)
+		if p, isP := x.(*ssa.Parameter); isP && bind != nil {
+			if a, has := bind[p]; has {
+				return stripConv(a)
+			}
+		}
+		if u, isU := x.(*ssa.UnOp); isU && u.Op == token.MUL {
+			if p, isP := stripLoadOfParamCell(u).(*ssa.Parameter); isP && bind != nil {
+				if a, has := bind[p]; has {
+					return stripConv(a)
+				}
+			}
+		}
+		return x
+	}
+	switch x := v.(type) {
+	case *ssa.Call:
+		g := staticCallee(x)
+		if g == nil {
+			return nil, nil, false
+		}
+		if g.Name() == "NewMonetaryIntFromBigInt" && len(x.Call.Args) == 1 {
+			return storeBalanceArgs(x.Call.Args[0], bind, stripConv, depth)
+		}
+		if fnPkgPath(origin(g)) == pkgVM && len(g.Blocks) > 0 {
+			nb := map[*ssa.Parameter]ssa.Value{}
+			for i, p := range g.Params {
+				if i < len(x.Call.Args) {
+					nb[p] = resolve(x.Call.Args[i])
+				}
+			}
+			// every non-error return of the helper must be the store's balance of the same arguments
+			var a0, k0 ssa.Value
+			n := 0
+			for _, b := range g.Blocks {
+				ret, isRet := b.Instrs[len(b.Instrs)-1].(*ssa.Return)
+				if !isRet || len(ret.Results) == 0 {
+					continue
+				}
+				if len(ret.Results) > 1 && !isNilConst(ret.Results[len(ret.Results)-1]) {
+					continue // an error return
+				}
+				a, k, found := storeBalanceArgs(ret.Results[0], nb, stripConv, depth+1)
+				if !found || (n > 0 && (a != a0 || k != k0)) {
+					return nil, nil, false
+				}
+				a0, k0 = a, k
+				n++
+			}
+			return a0, k0, n > 0
+		}
+	case *ssa.Extract:
+		if x.Index != 0 {
+			return nil, nil, false
+		}
+		if gb, isCall := x.Tuple.(*ssa.Call); isCall {
+			if gb.Call.IsInvoke() && gb.Call.Method.Name() == "GetBalance" && len(gb.Call.Args) == 3 {
+				return resolve(gb.Call.Args[1]), resolve(gb.Call.Args[2]), true
+			}
+			// (balance, err) := helper(…)
+			if g := staticCallee(gb); g != nil && fnPkgPath(origin(g)) == pkgVM && len(g.Blocks) > 0 {
+				return storeBalanceArgs(gb, bind, stripConv, depth)
+			}
+		}
+	}
+	return nil, nil, false
 }
